@@ -633,10 +633,11 @@ func isVMConstruction(fn *ssa.Function, vmT *types.Named) bool {
 // again is re-pointed by whichever VM imported it last.
 func importersReturnFreshModules(c *core.Ctx) {
 	p := c.P
-	modT := core.MustType(p.Pkg("object"), "Module")
+	_ = core.MustType(p.Pkg("object"), "Module")
 	n := 0
+	bodies := importBodies(p)
 	for _, fn := range repoFns(p, "importer") {
-		if fn.Name() != "Import" || fn.Signature.Recv() == nil || fn.Signature.Results().Len() != 2 || core.NamedOf(fn.Signature.Results().At(0).Type()) != modT {
+		if !bodies[fn] {
 			continue
 		}
 		for _, b := range fn.Blocks {
@@ -650,6 +651,12 @@ func importersReturnFreshModules(c *core.Ctx) {
 				for _, o := range core.Origins(rv) {
 					switch x := o.(type) {
 					case *ssa.Const:
+					case *ssa.Extract:
+						// what another import body of the package returned (decided there)
+						if call, ok := x.Tuple.(*ssa.Call); ok && x.Index == 0 && bodies[call.Call.StaticCallee()] {
+							continue
+						}
+						why = "it comes from " + o.String() + " (a module object that outlives the call)"
 					case *ssa.Call:
 						cal := x.Call.StaticCallee()
 						if cal == nil || !core.RepoFunc(cal) || cal.Pkg == nil || core.RelPkg(cal.Pkg.Pkg) != "object" || !strings.HasPrefix(cal.Name(), "New") {
